@@ -610,7 +610,18 @@ func (c *Ctx) ruleR15f(rule string, fn *ssa.Function) {
 				continue
 			}
 			judged = true
-			if !elemCmp {
+			// is the element at the index found read anywhere (compared here, or handed back to the caller)?
+			elemRead := false
+			for _, b2 := range fn.Blocks {
+				for _, i2 := range b2.Instrs {
+					if u, ok := i2.(*ssa.UnOp); ok && u.Op == token.MUL {
+						if ia, ok := u.X.(*ssa.IndexAddr); ok && ia.Index == ssa.Value(cl) {
+							elemRead = true
+						}
+					}
+				}
+			}
+			if !elemCmp && !elemRead {
 				c.R.Violation(rule, c.name(fn)+" search index used as membership", c.name(fn), c.P.InstrPos(cl), "the index returned by "+n+" is only tested for being in range before the code acts on it: that index is the insertion point, so every value not greater than the largest element passes as 'found'")
 				return
 			}
